@@ -47,6 +47,15 @@ func (k Keeper) ApplyAndReturnValidatorSetUpdates(ctx context.Context) ([]abci.V
 
 		// zero power validator removed from validator set
 		if newPower <= 0 {
+			// a validator that was never bonded is not part of the last
+			// validator set, so the removal pass below never sees it:
+			// purge its record (and consensus key index) here.
+			if !found {
+				if err := k.RemoveValidator(ctx, valAddr); err != nil {
+					return nil, err
+				}
+			}
+
 			continue
 		}
 
